@@ -72,3 +72,28 @@ Proof.
   - intros r Hr. now apply Hrs.
   - exact Hcompat.
 Qed.
+
+(* ---- executable comparison of the model's reports with the engine's (correspondence files) ---- *)
+Definition rep3 := (N * N * N)%type.      (* rule index, start offset, end offset of the reported node *)
+Definition rep3_eqb (a b : rep3) : bool :=
+  match a, b with (r, p, e), (r', p', e') => N.eqb r r' && N.eqb p p' && N.eqb e e' end.
+Fixpoint reps_first_diff (a b : list rep3) (i : N) : option N :=
+  match a, b with
+  | [], [] => None
+  | x :: a', y :: b' => if rep3_eqb x y then reps_first_diff a' b' (N.succ i) else Some i
+  | _, _ => Some i
+  end.
+(* the matcher/filter oracle as a table: (node id, rule index, callbacks (start, end, verdict)) *)
+Fixpoint mt_lookup (l : list (N * N * list (N * N * bool))) (i r : N) : list (N * N * bool) :=
+  match l with
+  | [] => []
+  | (i', r', cbs) :: l' => if N.eqb i i' && N.eqb r r' then cbs else mt_lookup l' i r
+  end.
+Definition R (i t : N) : rule := {| r_id := i; r_tag := t |}.
+(* 0 agree; 2 reports differ at index; 4 the model has no result *)
+Definition check_run (T : node) (RS : list rule) (MT : list (N * N * list (N * N * bool))) (ENG : list rep3) : N * N :=
+  match model_run (fun r i => mt_lookup MT i (r_id r)) RS (S (height T)) T with
+  | Some l => match reps_first_diff (map (fun p => (r_id (fst p), fst (snd p), snd (snd p))) l) ENG 0 with
+              | None => (0, 0) | Some i => (2, i) end
+  | None => (4, 0)
+  end.
